@@ -31,15 +31,40 @@ fn parse(input: &[u8]) -> Option<(Module, InputIds)> {
 
 /// The body goes through a scratch local that was allocated before the call (so it is older than the fresh
 /// argument locals of `replace_imported_func`) and reads every argument once.
-fn build_body(b: &mut InstrSeqBuilder, trace: FunctionId, results: &[ValType], scratch: LocalId, args: &[LocalId]) {
-    b.i32_const(0x7ACE);
-    b.local_set(scratch);
-    for a in args {
-        b.local_get(*a);
-        b.drop();
+fn build_body(b: &mut InstrSeqBuilder, trace: FunctionId, results: &[ValType], scratch: LocalId, args: &[LocalId], looped: bool) {
+    if looped {
+        // the same observable behaviour (one traced call) reached through a counting loop whose back edge is taken:
+        // the loop is spliced in afterwards with `loop_at`, the call sits in an `if` that only a finished count enters
+        b.i32_const(3);
+        b.local_set(scratch);
+        for a in args {
+            b.local_get(*a);
+            b.drop();
+        }
+        b.local_get(scratch);
+        b.unop(walrus::ir::UnaryOp::I32Eqz);
+        b.if_else(
+            None,
+            |t| {
+                t.i32_const(0x7ACE);
+                t.call(trace);
+            },
+            |_| {},
+        );
+        b.loop_at(2, None, |l| {
+            let id = l.id();
+            l.local_get(scratch).i32_const(1).binop(walrus::ir::BinaryOp::I32Sub).local_tee(scratch).br_if(id);
+        });
+    } else {
+        b.i32_const(0x7ACE);
+        b.local_set(scratch);
+        for a in args {
+            b.local_get(*a);
+            b.drop();
+        }
+        b.local_get(scratch);
+        b.call(trace);
     }
-    b.local_get(scratch);
-    b.call(trace);
     for r in results {
         match r {
             ValType::I32 => {
@@ -114,6 +139,7 @@ pub fn run(input: &[u8], rec: &mut Rec) {
                     return Ok((out, true));
                 }
                 let scratch = m.locals.add(ValType::I32);
+                let looped = (wv_gen::rng::fnv64(input) as usize + fi) % 3 == 2;
                 // a third of the import replacements: the import entry is taken out of the import table and put
                 // back first (same module, field and function - it is then the last entry), as a tool that
                 // rewrites import names does
@@ -133,9 +159,9 @@ pub fn run(input: &[u8], rec: &mut Rec) {
                     }
                 }
                 let r = if kind == "imp" {
-                    m.replace_imported_func(fid, |(b, args)| build_body(b, trace, &results, scratch, args))
+                    m.replace_imported_func(fid, |(b, args)| build_body(b, trace, &results, scratch, args, looped))
                 } else {
-                    m.replace_exported_func(fid, |(b, args)| build_body(b, trace, &results, scratch, args))
+                    m.replace_exported_func(fid, |(b, args)| build_body(b, trace, &results, scratch, args, looped))
                 };
                 r.map_err(|e| format!("{:#}", e))?;
                 Ok((m.emit_wasm(), false))
